@@ -141,6 +141,42 @@ def run(rep):
     # nothing returns before both loops ran
     early = [x for x in walk(body) if x.get("k") in ("Return", "Try") and any(q.contains(l, x) for l in loops)]
     rep.check(not early, "T-VALIDATE", "T-VALIDATE/no-early-return", v.sp, "no return or `?` inside the loops", str(len(early)))
+    # "all of this holds equally for optimised rules": optimise() may only touch the detection tree and its own flag, so the
+    # examples validate() runs (and everything else it reads) are those of the loaded rule
+    ro = F.fn("rule::Rule::optimise")
+    rep.describe("OPT-KEEPS", "Rule::optimise writes only detection.expression, detection.identifiers and the optimised flag")
+    if ro is None:
+        rep.lost("OPT-KEEPS", "OPT-KEEPS/anchor", "Rule::optimise")
+    else:
+        selfid = strip_ref(ro.thir["params"][0]["pat"]).get("id")
+        allowed = ("self.detection.expression", "self.detection.identifiers", "self.optimised")
+
+        def self_path(e):
+            e = peel(e)
+            names = []
+            while e.get("k") == "Field":
+                names.append(e.get("name") or str(e.get("field")))
+                e = peel(e["arg"])
+            if e.get("k") == "Var" and e["id"] == selfid:
+                return ".".join(["self"] + names[::-1])
+            return None
+        writes = []
+        for n in walk(ro.body):
+            if n.get("k") in ("Assign", "AssignOp"):
+                pth = self_path(n["lhs"])
+                if pth is not None:
+                    writes.append((pth, n.get("sp")))
+            if n.get("k") == "Borrow" and n.get("mut"):
+                pth = self_path(n["arg"])
+                if pth is not None and pth != "self":
+                    writes.append((pth, n.get("sp")))
+            if n.get("k") == "Adt" and n["adt"] in ("rule::Rule", "rule::Detection"):
+                writes.append(("<rebuilt %s>" % n["adt"], n.get("sp")))
+        bad = [(p_, sp_) for p_, sp_ in writes if p_ not in allowed]
+        rep.check(not bad and len(writes) >= 3, "OPT-KEEPS", "OPT-KEEPS/write-set", ro.sp, "every write in optimise() goes to detection.expression, detection.identifiers or optimised (%d writes)" % len(writes), "; ".join("%s at %s" % b_ for b_ in bad[:4]))
+        tail = ro.body.get("expr")
+        rep.check(tail is not None and q.var_id(tail) == selfid, "OPT-KEEPS", "OPT-KEEPS/returns-self", ro.sp, "optimise returns the same rule value", show(tail) if tail else "-")
+    rep.floor("OPT-KEEPS", 2)
     # NO-PANIC
     bad = []
     for n in walk(body):
